@@ -129,10 +129,11 @@ func vfH_C09_nested(tier int) {
 	// orthogonal array L9: every pair of (position, level) combinations occurs (pairwise cover of 3 factors x 3 levels)
 	l9 := [][3]int{{0, 0, 0}, {0, 1, 1}, {0, 2, 2}, {1, 0, 1}, {1, 1, 2}, {1, 2, 0}, {2, 0, 2}, {2, 1, 0}, {2, 2, 1}}
 	kr := l9[vfChoice(9)]
-	mr := l9[vfChoice(9)]
+	// binding splits: literal/reduce/eval mixes (three rows in the quick tier, the full array otherwise)
+	mr := [][3]int{{0, 1, 2}, {1, 2, 0}, {2, 0, 1}}[vfChoice(3)]
 	if tier > 0 {
 		kr = [3]int{vfChoice(3), vfChoice(3), vfChoice(3)}
-		mr = [3]int{vfChoice(3), vfChoice(3), vfChoice(3)}
+		mr = l9[vfChoice(9)]
 	}
 	k1, k2, k3 := kinds[kr[0]], kinds[kr[1]], kinds[kr[2]]
 	m1, m2, m3 := mr[0], mr[1], mr[2]
